@@ -1335,9 +1335,9 @@ func reverseRule(c *Ctx, R string) {
 	c.Ob(R, "(*list).Reverse/return", fd.Pos()).Check(p.End == "return" && len(p.Vals) == 1 && v.isEgo(p.Vals[0]), "fluent return", "Reverse does not return ego")
 }
 
-// c05ListOf: the constructor's single path builds a fresh list, and its loop — exactly `count` iterations for count = 0..3 — installs in
-// every iteration the same field: parseVal(value) evaluated BEFORE the loop (a conversion inside the loop would create a distinct nested
-// container per slot when the value is a native slice or map).
+// c05ListOf: NewListOf(value, count) is executed on the folded spine for count = 0..3: the list it returns must show exactly count
+// cells, all of them the ONE field parseVal(value) — and that conversion must have been evaluated before the filling loop (a conversion
+// inside the loop, or a per-slot Add, creates a distinct nested container per slot when the value is a native slice or map).
 func c05ListOf(c *Ctx) {
 	fd := c.NeedDecl("C05.R9", "NewListOf")
 	if fd == nil {
@@ -1360,58 +1360,95 @@ func c05ListOf(c *Ctx) {
 			}
 		}
 	}
-	p, loop, msg := singleLoopPath(paths)
-	if msg != "" || value == nil || count == nil {
-		ob.Fail("NewListOf is not one loop installing the element (%s)", msg)
+	if value == nil || count == nil {
+		ob.Undecided("NewListOf does not take (value, count)")
 		return
 	}
-	if p.End != "return" || len(p.Vals) != 1 {
-		ob.Fail("NewListOf does not return the list it builds")
-		return
-	}
-	result := p.Vals[0]
-	// trip count
-	for n := int64(0); n <= 3; n++ {
-		hook := func(t Term) (int64, bool) {
-			if isParamTerm(t, count) {
-				return n, true
+	v := c.view(fd)
+	if v.ct == nil {
+		for _, ct := range c.Inv().Conts {
+			if ct.IsList {
+				v.ct = ct
 			}
-			return 0, false
 		}
-		its, w := c.loopIterations(loop, hook, 16)
-		if loop.Range != nil || w != "" || int64(len(its)) != n {
-			ob.Fail("the loop does not run exactly count times (count=%d: %d iterations %s)", n, len(its), w)
+	}
+	for n := int64(0); n <= 3; n++ {
+		r := &seqRun{c: c, v: v, ints: map[types.Object]int64{count: n}, intArgs: map[types.Object][]int64{}, nVals: map[types.Object]int{}, bind: map[types.Object]string{}, loopInt: map[int]map[types.Object]int64{}}
+		r.cur = &seqState{spine: map[string]seqSlice{}, arrs: map[int][]string{}}
+		r.snapshot(-1 << 30)
+		var sel *Path
+		for _, p := range paths {
+			firstLoop := -1
+			for i, st := range p.Steps {
+				if st.Kind == "loop" {
+					firstLoop = i
+					break
+				}
+			}
+			if ok, decided := r.feasible(p, firstLoop); decided && ok && p.End == "return" {
+				if firstLoop < 0 {
+					if ok2, _ := r.feasible(p, -1); !ok2 {
+						continue
+					}
+				}
+				sel = p
+				break
+			}
+		}
+		if r.why != "" || sel == nil || len(sel.Vals) != 1 {
+			ob.Undecided("count=%d: no returning path the spine model can follow %s", n, r.why)
+			return
+		}
+		r.exec(sel.Steps)
+		if r.panic != "" {
+			ob.Fail("count=%d: %s", n, r.panic)
+			return
+		}
+		if r.why != "" {
+			ob.Undecided("count=%d: %s", n, r.why)
+			return
+		}
+		if !strings.HasPrefix(r.containerKey(sel.Vals[0]), "new:") {
+			ob.Fail("the result is not a list created by this call")
+			return
+		}
+		rs, ok := r.spineOfContainer(sel.Vals[0], -1)
+		if !ok {
+			ob.Undecided("count=%d: %s", n, r.why)
+			return
+		}
+		var want []string
+		for i := int64(0); i < n; i++ {
+			want = append(want, "pv($"+value.Name()+")")
+		}
+		if got := r.cells(r.cur, rs); strings.Join(got, ",") != strings.Join(want, ",") {
+			ob.Fail("count=%d: the list shows [%s], expected %d times the one element parseVal(%s) (a conversion per slot yields distinct nested containers for a native slice or map value)", n, strings.Join(got, ","), n, value.Name())
 			return
 		}
 	}
-	if len(loop.Iter) != 1 || len(loop.Iter[0].Conds()) != 0 || len(loop.Iter[0].Effects()) != 1 || (loop.Iter[0].End != "fall" && loop.Iter[0].End != "continue") {
-		ob.Fail("the loop body is not one unconditional installation of the element")
-		return
-	}
-	st := loop.Iter[0].Effects()[0]
-	var elem Term
-	if st.Kind == "store" {
-		if sel, ok := st.LHS.(TSel); ok && sameContainer(sel.X, result) {
-			if ap, ok := st.RHS.(TBuiltin); ok && ap.Name == "append" && len(ap.Args) == 2 {
-				if s2, ok := ap.Args[0].(TSel); ok && sameContainer(s2.X, result) {
-					elem = ap.Args[1]
+	// the conversion is evaluated before any loop: no parseVal(value) term inside a loop carries an epoch of that loop
+	for _, p := range paths {
+		for _, st := range p.Steps {
+			if st.Kind != "loop" {
+				continue
+			}
+			bad := false
+			for _, ip := range st.Loop.Iter {
+				for _, is := range ip.Steps {
+					for _, t := range []Term{is.Cond.T, is.LHS, is.RHS} {
+						collectSubterms(t, func(u Term) {
+							if pv, ok := u.(TCall); ok && pv.Fun != nil && pv.Fun.Name() == "parseVal" && pv.Fun.Pkg() == c.Types && pv.Epoch >= st.Loop.HeadEpoch {
+								bad = true
+							}
+						})
+					}
 				}
 			}
-		}
-		if ix, ok := st.LHS.(TIndex); ok {
-			if sel, ok := ix.X.(TSel); ok && sameContainer(sel.X, result) {
-				elem = st.RHS
+			if bad {
+				ob.Fail("parseVal(value) is evaluated inside the loop: a native slice or map value becomes a distinct container in every slot instead of one shared element")
+				return
 			}
 		}
 	}
-	pv, ok := elem.(TCall)
-	if elem == nil || !ok || pv.Fun == nil || pv.Fun.Name() != "parseVal" || pv.Fun.Pkg() != c.Types || len(pv.Args) != 1 || !isParamTerm(pv.Args[0], value) {
-		ob.Fail("an iteration does not install parseVal(value) directly into the new list's spine (a per-slot Add/Insert converts the value again for every slot)")
-		return
-	}
-	if pv.Epoch >= loop.HeadEpoch {
-		ob.Fail("parseVal(value) is evaluated inside the loop: a native slice or map value becomes a distinct container in every slot instead of one shared element")
-		return
-	}
-	ob.Ok("value normalised once before the loop; the same field appended in each of exactly count iterations (count = 0..3 folded)")
+	ob.Ok("value normalised once before the loop; the returned list shows exactly count times that one field (count = 0..3 folded on the spine model)")
 }
